@@ -80,8 +80,8 @@ def run(ctx):
                        'distinct by (scenario, plan, mode, hash seed).')
     ctx.cov['trusted_base'] = ['TLC 1.8', 'gate tokens of the guarded hooks force the schedule',
                                'harness projection']
-    ctx.assumptions += ['stages other than mapping are covered for hash seeds / worker counts by the '
-                        'stage checks (C09, C11, C12, C13) as they are built']
+    ctx.assumptions += ['worker counts change the partial sums of the statistics stage (different work split), '
+                        'so that comparison is left to C09 (to rounding); every other comparison is bitwise']
     combos = [(3, 2), (2, 1), (3, 3)] if quick else [(2, 1), (3, 1), (3, 2), (3, 3), (4, 2), (4, 3), (4, 4)]
     if ctx.only in (None, 'mc'):
         for N, P in combos:
@@ -171,6 +171,13 @@ def run(ctx):
                  orders={f'N{N}P{P}': sum(1 for m in meta if m[2][0] == 'order') for N, P in combos[:1]})
         if not quick:
             ctx.cov['exhaustive'] = True
+    if ctx.only in (None, 'stages'):
+        _stages(ctx, quick)
+
+
+def _stages(ctx, quick):
+    from harness import stageorders
+    stageorders.run(ctx, quick)
 
 
 def replay(ctx, path):
